@@ -229,6 +229,10 @@ func Run(col *core.Collector, prop, tier, variant string, seed uint64, shard, ns
 			col.Count("hook."+sites[s], n)
 		}
 	}
+	if prop == "C14" && col.NumViolations() == 0 {
+		runtime.GOMAXPROCS(runtime.NumCPU())
+		runC14PairsAll(col, tier, variant, seed, shard, replayDir, wd)
+	}
 }
 
 type atomicCfg struct {
